@@ -748,16 +748,22 @@ fn apply_fold_specific_filter<'query, AdapterT: Adapter<'query>>(
     iterator: ContextIterator<'query, AdapterT::Vertex>,
 ) -> ContextIterator<'query, AdapterT::Vertex> {
     let fold_specific_field = filter.left();
-    let field_iterator = Box::new(compute_fold_specific_field_with_separate_value(fold.eid, fold_specific_field, iterator).map(|(mut ctx, tagged_value)| {
-        let value = match tagged_value {
-            TaggedValue::Some(value) => value,
-            TaggedValue::NonexistentOptional => {
-                unreachable!("while applying fold-specific filter, the @fold turned out to not exist: {ctx:?}")
-            }
-        };
-        ctx.values.push(value);
-        ctx
-    }));
+    let field_iterator = Box::new(
+        compute_fold_specific_field_with_separate_value(fold.eid, fold_specific_field, iterator)
+            .map(|(mut ctx, tagged_value)| {
+                let value = match tagged_value {
+                    TaggedValue::Some(value) => value,
+                    TaggedValue::NonexistentOptional => {
+                        // The @fold is inside an @optional scope that did not exist. The context has
+                        // no active vertex, so the filter passes regardless of the value used here.
+                        debug_assert!(ctx.within_nonexistent_optional());
+                        FieldValue::Null
+                    }
+                };
+                ctx.values.push(value);
+                ctx
+            }),
+    );
 
     apply_filter(
         adapter,
